@@ -6,7 +6,7 @@ import os
 
 from vx.unit import Unit
 
-PROPS = ['C06', 'C08', 'C01']
+PROPS = ['C06', 'C08', 'C05', 'C01']
 
 ALPHABET = ['a', 'é', '\U0001F680']
 
@@ -102,7 +102,7 @@ def strings():
 
 
 def build(repo, findings):
-    u = Unit('U9', 'shortest/longest prefix and suffix removal (bounded, Kani)', repo, ['C06', 'C08'], safety_props=['C01', 'C06'])
+    u = Unit('U9', 'shortest/longest prefix and suffix removal; set / unset / null classification (bounded, Kani)', repo, ['C06', 'C08', 'C05'], safety_props=['C01', 'C06'])
     u.kani_only = True
     src = u.source('brush-core/src/patterns.rs')
     fns = []
@@ -134,22 +134,24 @@ def build(repo, findings):
     })
     # ---- second bounded job: Expansion::classify (set / unset / null), closures over iterators — not Verus material
     ex = u.source('brush-core/src/expansion.rs')
-    cl_items = [ex.item(r'^enum ExpansionPiece ', 'ExpansionPiece').r1(keep_derive=('Clone',)),
-                ex.item(r'^struct WordField\(', 'WordField').r1(keep_derive=('Clone', 'Default')),
-                ex.item(r'^struct Expansion ', 'Expansion').r1(keep_derive=()),
-                ex.item(r'^enum ParameterState ', 'ParameterState').r1(keep_derive=())]
-    cl_fn = ex.method(r'^impl Expansion \{(?=\n    fn classify)', 'classify', 'classify').r1()
-    cl_as = ex.method(r'^impl ExpansionPiece ', 'as_str', 'ExpansionPiece::as_str').r1()
-    for it in cl_items + [cl_fn, cl_as]:
+    cl_items = [ex.item(r'^enum ExpansionPiece ', 'ExpansionPiece').r1(plain=True),
+                ex.item(r'^struct WordField\(', 'WordField').r1(plain=True),
+                ex.item(r'^struct Expansion ', 'Expansion').r1(plain=True),
+                ex.item(r'^enum ParameterState ', 'ParameterState').r1(plain=True)]
+    # whole impl blocks, verbatim: a helper that classify calls (len, polymorphic_len, ..) runs as the real code
+    cl_impls = [ex.item(r'^impl Expansion \{', 'impl Expansion').r1(),
+                ex.item(r'^impl WordField \{', 'impl WordField').r1(),
+                ex.item(r'^impl From<ExpansionPiece> for WordField ', 'From<ExpansionPiece> for WordField').r1(),
+                ex.item(r'^impl From<String> for WordField ', 'From<String> for WordField').r1(),
+                ex.item(r'^impl ExpansionPiece \{', 'impl ExpansionPiece').r1()]
+    for it in cl_items + cl_impls:
         u.items.append(it)
 
     def gen_classify(workdir):
         d = os.path.join(workdir, 'kani_u9b')
         os.makedirs(os.path.join(d, 'src'), exist_ok=True)
         os.makedirs(os.path.join(d, '.cargo'), exist_ok=True)
-        body = '#![allow(unused, dead_code)]\n// ---- extracted verbatim from brush-core/src/expansion.rs\n' + '\n\n'.join(i.text for i in cl_items)
-        body += '\n\nimpl ExpansionPiece {\n' + '\n'.join('    ' + l for l in cl_as.text.split('\n')) + '\n}\n'
-        body += '\nimpl Expansion {\n' + '\n'.join('    ' + l for l in cl_fn.text.split('\n')) + '\n}\n'
+        body = '#![allow(unused, dead_code)]\nuse std::cmp::min;\n// ---- extracted verbatim from brush-core/src/expansion.rs (types and whole impl blocks)\n' + '\n\n'.join(i.text for i in cl_items + cl_impls) + '\n'
         body += '''
 // every expansion with <= 2 fields of <= 2 pieces each (shape concrete per harness; quoting, emptiness and flags symbolic)
 fn any_piece() -> (ExpansionPiece, bool) {
@@ -315,7 +317,7 @@ fn classify_all_empty_two_fields() {
     u.bounded.append({
         'name': 'classify-set-unset-null', 'build': gen_classify, 'harnesses': ['classify_shape_%d' % i for i in (range(13) if tier == 'thorough' else (0, 1, 2, 4, 5, 7, 8))], 'timeout': 300, 'workers': 13,
         'label': 'bounded', 'bound': 'all expansions with <= 2 fields of <= 2 pieces [quick: <= 1 piece per field] (one harness per shape), each piece quoted or unquoted, empty or one character; undefined / concatenate / from_array symbolic',
-        'props': ['C06'], 'quick': True,
+        'props': ['C06', 'C05'], 'quick': True,
     })
     u.bounded.append({
         'name': 'classify-all-empty-list', 'build': gen_classify, 'harnesses': ['classify_all_empty_two_fields'], 'timeout': 300, 'workers': 1,
